@@ -52,7 +52,7 @@ ENGINE_MODULES = {
 
 
 # engines that have been delivered, reviewed and integrated (others are skipped even if present)
-READY = {"eng_brand", "eng_collect", "eng_layout"}
+READY = {"eng_brand", "eng_collect", "eng_layout", "eng_tables"}
 
 
 def _merge(a, b):
